@@ -496,6 +496,43 @@ Theorem C05_source_tie_residual_identity_3d :
 Proof. exact source_residual_identity_3d. Qed.
 Print Assumptions C05_source_tie_residual_identity_3d.
 
+(* COROLLARY: the property's main claim (C05_p2p_normal_equations_and_minimiser) stated directly about the GENERATED
+   estimate_ bodies run on the LsModel state (repaired SVD path): whenever such a call returns (st2, H), H = scatter x,
+   x = Ac z + Bc, and — under the SVD contract with all singular values above the threshold — z satisfies the normal
+   equations of the linearised problem of THESE triples, minimises its cost and is the only minimiser. *)
+Theorem C05_source_tie_normal_equations_and_minimiser :
+  forall inverse_of svd_of (fill : R) (src tgt nrm : list (list R)) (corr : list (nat * nat)) tr (st : ls_state (T:=R)),
+  let om := o_methods ROps svd_of fill true in
+  let spec (d ps : nat) (res : option (ls_state (T:=R) * list (list R))) :=
+    forall st2 H, res = Some (st2, H) ->
+    exists st1 x,
+      p2p_load ROps inverse_of svd_of fill true d ps tr st = Some st1 /\
+      ls_estimate_svd ROps svd_of st1 = Some (st2, x) /\ H = p2p_scatter ROps d x /\
+      (svd_contract (p2p_k d) (ls_JtJ ROps st1) (svd_of (p2p_k d) (ls_JtJ ROps st1)) -> svd_all_above svd_of st1 ->
+       let n := length tr in let k := p2p_k d in
+       let z := ls_z st1 (svd_pinv ROps k (svd_thr svd_of st1) (svd_of k (ls_JtJ ROps st1))) in
+       (forall i, (i < k)%nat -> vget ROps x i = Rsum k (fun l => mget ROps (ls_A st) i l * z l) + vget ROps (ls_b st) i) /\
+       (forall i, (i < k)%nat -> grad n k (Jp d tr) (Yp ps tr) z i = 0) /\
+       (forall y, cost n k (Jp d tr) (Yp ps tr) z <= cost n k (Jp d tr) (Yp ps tr) y) /\
+       (forall y, cost n k (Jp d tr) (Yp ps tr) y = cost n k (Jp d tr) (Yp ps tr) z -> forall i, (i < k)%nat -> y i = z i)) in
+  (1 <= length tr)%nat ->
+  (triples_of_corr src tgt nrm corr = Some tr ->
+     (ready 3 st ->
+        spec 2%nat 2%nat (pack (src_estimate_corr_V2 ROps (option ls_state) om src tgt nrm corr (Some st))) /\
+        spec 2%nat 3%nat (pack (src_estimate_corr_H2 ROps (option ls_state) om src tgt nrm corr (Some st)))) /\
+     (ready 6 st ->
+        spec 3%nat 3%nat (pack (src_estimate_corr_V3 ROps (option ls_state) om src tgt nrm corr (Some st))) /\
+        spec 3%nat 4%nat (pack (src_estimate_corr_H3 ROps (option ls_state) om src tgt nrm corr (Some st))))) /\
+  (triples_aligned src tgt nrm = Some tr ->
+     (ready 3 st ->
+        spec 2%nat 2%nat (pack (src_estimate_aligned_V2 ROps (option ls_state) om src tgt nrm (Some st))) /\
+        spec 2%nat 3%nat (pack (src_estimate_aligned_H2 ROps (option ls_state) om src tgt nrm (Some st)))) /\
+     (ready 6 st ->
+        spec 3%nat 3%nat (pack (src_estimate_aligned_V3 ROps (option ls_state) om src tgt nrm (Some st))) /\
+        spec 3%nat 4%nat (pack (src_estimate_aligned_H3 ROps (option ls_state) om src tgt nrm (Some st))))).
+Proof. exact source_estimate_correct. Qed.
+Print Assumptions C05_source_tie_normal_equations_and_minimiser.
+
 (* ---- non-vacuity of the source-tie hypotheses: an accepted correspondence input (the normal of correspondence (1,0) is
         normal 0, the TARGET's) and accepted aligned arrays; a fresh estimator is ready (C05_fresh_estimator_ready) ---- *)
 Example C05_source_tie_inputs_accepted :
